@@ -17,14 +17,14 @@ def gen_recipe(rng):
     nsheets = rng.randint(1, 3)
     cells = []
     used = set()
-    for _ in range(rng.randint(1, 6)):
+    for _ in range(rng.randint(1, 6) if rng.random() < 0.85 else rng.randint(11, 18)):       # now and then MANY Python-like cells: each must be listed
         s = rng.randrange(nsheets)
         col = rng.choice([1, 2, 3, 5, 26, 27, 28])
         row = rng.choice([1, 2, 3, 4, 7, 11])
         if (s, col, row) in used:
             continue
         used.add((s, col, row))
-        r = rng.random()
+        r = rng.random() * (0.6 if len(cells) >= 6 else 1)
         text = rng.choice(SUSP) if r < 0.45 else rng.choice(INNO) if r < 0.85 else rng.choice(MIXED)
         if rng.random() < 0.35:
             text = '=' + text
@@ -76,6 +76,7 @@ def corpus():
     rs = [{'nsheets': 2, 'cells': [[0, 2, 3, 'eval(1)'], [1, 3, 5, 'os.system(1)'], [0, 1, 1, 'SUM(A1)']], 'safety': True},
           {'nsheets': 1, 'cells': [[0, 2, 3, 'quit()']], 'safety': True}, {'nsheets': 1, 'cells': [[0, 2, 3, '=os.getcwd()']], 'safety': True},
           {'nsheets': 1, 'cells': [[0, 2, 3, 'eval(1)']], 'safety': False}, {'nsheets': 1, 'cells': [[0, 27, 11, 'SUM(1)'], [0, 1, 2, 'x']], 'safety': True}]
+    rs.append({'nsheets': 3, 'safety': True, 'cells': [[i % 3, 1 + i % 4, 1 + i // 3, 'eval(%d)' % i] for i in range(14)]})       # 14 Python-like cells on 3 sheets
     rs += [x['witness'] for x in C.known_findings()['findings'] if x['property'] == 'C19']
     return rs
 
@@ -98,36 +99,62 @@ def run(R, tier):
     R.assumptions += ['printable ASCII texts; regexes through Base/Regex.v; openpyxl delivers the cell texts (reader covered by C18)']
 
 
-def gate_histories(R):
-    """the gate follows the setting in force on ONE parser object: toggling the check between two calls takes effect"""
+def gate_histories(R, only=None):
+    """the gate follows the workbook and the setting in force on ONE parser object: toggling the check or changing the file between two
+    calls takes effect, a rejected call leaves nothing behind that lets a later call through, and a call that is let through returns
+    the translation of the CURRENT workbook.  Steps: d/e = disable/enable the check, p0/p1 = set the path to the clean / the Python-like
+    workbook, g = get_translation, w = write_translation."""
     from openpyxl import Workbook
     os.makedirs(DIR, exist_ok=True)
-    wb = Workbook()
-    wb.active['B3'] = 'eval(1)'
-    path = os.path.join(DIR, 'hist_%d.xlsx' % os.getpid())
-    wb.save(path)
+    paths = []
+    for k, cells in enumerate([{'A1': 41, 'B1': '=A1+1'}, {'A1': 7, 'B3': 'eval(1)', 'C1': '=A1*2'}]):
+        wb = Workbook()
+        for a, v in cells.items():
+            wb.active[a] = v
+        path = os.path.join(DIR, 'hist_%d_%d.xlsx' % (os.getpid(), k))
+        wb.save(path)
+        paths.append(path)
+    out = os.path.join(DIR, 'hist_%d_out.py' % os.getpid())
+    fresh = [I.Parser().set_excel_file_path(p).disable_safety_check().get_translation() for p in paths]
 
-    def raised(pr):
+    def call(pr, st):
         try:
-            pr.get_translation()
-            return False
+            if st == 'g':
+                return ('text', pr.get_translation())
+            if os.path.exists(out):
+                os.remove(out)
+            pr.write_translation(out)
+            return ('text', open(out).read())
         except I.X.E2PyclSafetyException:
-            return True
-    for name, steps in [('disable,get,enable,get', ['d', 'g', 'e', 'g']), ('get,disable,get,enable,get', ['g', 'd', 'g', 'e', 'g']),
-                        ('disable,get,enable,enable,get', ['d', 'g', 'e', 'e', 'g']), ('get,disable,disable,get', ['g', 'd', 'd', 'g'])]:
-        pr = I.Parser().set_excel_file_path(path)
-        on = True
+            return ('raised', None)
+    fixed = [['p1', 'd', 'g', 'e', 'g'], ['p1', 'g', 'd', 'g', 'e', 'g'], ['p1', 'd', 'g', 'e', 'e', 'g'], ['p1', 'g', 'd', 'd', 'g'],
+             ['p0', 'g', 'p1', 'g', 'g'], ['p0', 'g', 'p1', 'g', 'w'], ['p1', 'g', 'g'], ['p1', 'd', 'g', 'p0', 'e', 'g', 'p1', 'g', 'g'],
+             ['p0', 'g', 'p1', 'g', 'p0', 'g'], ['p1', 'g', 'p0', 'g', 'p1', 'g']]
+    rng = R.rng
+    hists = [only] if only else fixed + [[rng.choice(['p0', 'p1'])] + [rng.choice(['d', 'e', 'g', 'g', 'p0', 'p1', 'g', 'w']) for _ in range(rng.randint(2, 7))]
+                                         for _ in range(60)]
+    can_write = True
+    for steps in hists:
+        pr = I.Parser()
+        on, cur = True, None
         for k, st in enumerate(steps):
             if st == 'd':
                 pr.disable_safety_check(); on = False
             elif st == 'e':
                 pr.enable_safety_check(); on = True
+            elif st in ('p0', 'p1'):
+                cur = int(st[1]); pr.set_excel_file_path(paths[cur])
             else:
-                R.count(('hist', name, k), True)
-                got = raised(pr)
-                if got != on:
-                    R.violation('history %s on one Parser over a workbook with a Python-like cell: call %d %s the safety exception although the check is %s'
-                                % (name, k + 1, 'raised' if got else 'did not raise', 'enabled' if on else 'disabled'),
+                if st == 'w' and not can_write:
+                    continue
+                R.count(('hist', tuple(steps), k), True)
+                got = call(pr, st)
+                exp = ('raised', None) if (cur == 1 and on) else ('text', fresh[cur])
+                if got != exp:
+                    what = ('raised the safety exception although %s' % ('the check is disabled' if not on else 'the current workbook is clean')) if got[0] == 'raised' else (
+                        'did not raise the safety exception although the check is enabled and the current workbook has a Python-like cell' if exp[0] == 'raised'
+                        else 'returned a translation that is not the translation of the current workbook')
+                    R.violation('history %s on one Parser (p0 = clean workbook, p1 = workbook with a Python-like cell): call %d %s' % (','.join(steps), k + 1, what),
                                 {'recipe': {'kind': 'history', 'steps': steps}, 'input_found': True})
                     break
 
@@ -138,7 +165,7 @@ def replay(R, rp):
         print('nothing to replay: ' + str(rp.get('broken')))
         return 1
     if rc.get('kind') == 'history':
-        gate_histories(R)
+        gate_histories(R, only=rc['steps'])
         for w, _ in R.violations:
             print(w)
         return 1 if R.violations else 0
